@@ -80,5 +80,14 @@ PROP = {'title': 'Random wrappers are transparent and stay within the requested 
                  'reset() / param(x) where fcppt does) -- its cached state (normal_distribution) is never hand-modelled; only for the '
                  'route variate(gen, d.param()) the reference is a FRESH std distribution built from the used distribution\'s param(), '
                  'because that constructor receives parameters, not a distribution',
+                 'over-assertion audit: every violation signature is either stated in the property / the doxygen comments (sequence, '
+                 'bounds, both ends, min()/max(), param() getter and setter, reset(), operator==, nothing for an empty container, '
+                 'copy semantics required of a random number distribution) or implied by a declared signature (returned reference is '
+                 'an element of the referenced container, a by-value copy / move target continues like its source, the generator is '
+                 'used by reference). Demoted to information counters, never a verdict: info:<family>:history:param_set:state (equality '
+                 'of the wrapped distribution\'s internal state with a std distribution driven the same way -- only the sequence is '
+                 'promised); copy-/move-assignment of variate and uniform_container is exercised only while those undocumented '
+                 'operations exist (info:variate_not_assignable / info:uniform_container_not_assignable otherwise). Moved-from objects '
+                 'are never used',
                  'the compile probes for operator()(rng, param), param(), convert_to and variate<uniform_container> are kept beside the '
                  'runtime checks']}
